@@ -53,6 +53,7 @@ fn run_case(ctx: &mut Ctx, dom: &str, a: &[Arg]) {
         "mbi" | "mbiwalk" | "mbinull" | "iters" | "elfname" => dom_mbi::run(ctx, dom, a),
         "hdr" | "hdrwalk" | "hdrnull" | "find" | "cksum" | "verify" => dom_hdr::run(ctx, dom, a),
         "cast" => dom_cast::run(ctx, a),
+        "gettag" => dom_cast::run_gettag(ctx, a),
         // the constructors and builders exist with the crates' `builder` feature only
         #[cfg(feature = "builder")]
         "ctor" | "hctor" | "build" | "hbuild" | "newboxed" | "clone" => dom_build::run(ctx, dom, a),
